@@ -1,6 +1,6 @@
 (** Correspondence judge for the IBTP driver: compares the observations printed by the real
     executor with [IbtpExec.run] under the candidate defect configurations.  Definitions only. *)
-From BX Require Import Base.Prelude Base.Fsm Model.TxFsm Model.TxMgr Model.Interchain Model.IbtpExec.
+From BX Require Import Base.Prelude Base.Fsm Model.TxFsm Model.TxMgr Model.Interchain Model.IbtpExec Model.IbtpMon.
 From Coq Require Import String.
 Local Open Scope N_scope.
 
@@ -98,4 +98,36 @@ Definition explain (k : icase) (cfg : Defects) : N * N :=
       | Some x, Some y => (a, bobs_diff (k_world k) x y)
       | _, _ => (a, 0)
       end
+  end.
+
+
+(** * the judge: property predicate on the IMPLEMENTATION trace first, then model = implementation
+    under one of the candidate configurations (subsets of the open findings' flags) *)
+Definition prop_b (which : N) (k : icase) : bool :=
+  let w := k_world k in let q := k_query k in
+  if which =? 2 then c02_b w q (k_items k) (k_impl k)
+  else if which =? 4 then c04_b w q (k_items k) (k_impl k)
+  else if which =? 5 then c05_b w q (k_items k) (k_impl k)
+  else if which =? 6 then c06_b w q (k_items k) (k_impl k)
+  else true.
+
+(** (0,n) ok, matched candidate n;  (2,0) property false on the implementation trace;
+    (1,i) property true but no candidate reproduces the trace (i = longest agreeing prefix);
+    (3,0) every candidate left the modelled domain *)
+Definition judge_ibtp (which : N) (cfgs : list Defects) (k : icase) : verdict :=
+  let n := first_match k cfgs 1 in
+  if negb (prop_b which k) then V_propfalse n       (* n = candidate reproducing the trace, 0 = none *)
+  else
+    if negb (n =? 0) then (0, n)
+    else match best_prefix k cfgs with
+         | Some a => V_mismatch a
+         | None => V_domain 0
+         end.
+
+(** the same predicate on the model's own trace under a configuration (self-check of the predicates
+    and refutation witnesses) *)
+Definition prop_on_model (which : N) (cfg : Defects) (w : world) (q : query) (items : list item) : option bool :=
+  match run cfg w q state_init items with
+  | Some tr => Some (prop_b which (Build_icase w q items tr))
+  | None => None
   end.
